@@ -21,11 +21,15 @@ SelClauses(r) ==
     valid_unchanged |-> (r.sort_ok /\ CheckOrder(in) => out = in),
     idempotent  |-> (r.sort_ok /\ Complete(in) => r.again_ok /\ r.again_out = out),
     check_order |-> (r.check = CheckOrder(in)),
-    apply_iff   |-> (r.apply = ApplyAccepts(in)) ]
+    apply_iff   |-> (r.apply = ApplyAccepts(in)),
+    \* the same verdict from a curve object that has a history: it applied
+    \* a valid arrangement of the very same steps just before
+    apply_iff_after_valid |-> (r.apply_hist = ApplyAccepts(in)) ]
 
 \* clauses owed by a list that contains an unknown identifier
 UnkClauses(r) ==
-  [ apply_rejects_unknown |-> (~r.apply /\ ~ApplyAccepts(r.inp)) ]
+  [ apply_rejects_unknown |-> (~r.apply /\ ~ApplyAccepts(r.inp)),
+    apply_rejects_unknown_after_valid |-> ~r.apply_hist ]
 
 \* the list of available steps
 AvClauses(r) ==
